@@ -1,7 +1,9 @@
 /- aggregator: property theorems of C06 (operation level and layout) plus the source-tie theorems of `detail/bundle.hpp`
    (`BundleImpl`, `utils::array_psum`) and of `traits::lie` for Eigen vectors / scalars / native groups, regenerated from the
-   C++ on every check (tools/gen_bundle.py) -/
+   C++ on every check (tools/gen_bundle.py), plus what C06 says in rounded arithmetic (C06Round: Bundles add no arithmetic;
+   Tn as the additive group in the standard model of floating-point arithmetic) -/
 import SmoothProps.C06
+import SmoothProps.C06Round
 import SmoothProps.C06Layout
 import SmoothProps.SrcTieBundle
 import SmoothProps.SrcTieRn
